@@ -72,6 +72,13 @@ def mix_pool(path, part="all"):
     edoc = [{"v": list(range(1500))}, {"v": ["s%d" % i for i in range(1500)]}]
     for t in ("sort_by(@, &max(v))", "max_by(@, &min(v))", "min_by(@, &sort(v)[0])", "map(&abs(max(v)), @)", "sort_by(@, &length(v) && max(v))", "[*].sum(v)", "sort_by(@, &reverse(v)[0])"):
         cases.append((t, edoc))
+    # sorting functions nested inside the key expressions of sorting functions, with the other kind of key inside (whatever a sort holds
+    # while it evaluates its keys, another sort must be able to run inside it -- on this thread and on every other)
+    gdoc = {"groups": [{"id": g, "items": [{"n": (g * 7 + i * 5) % 13, "s": "s%02d" % ((g * 3 + i * 11) % 17)} for i in range(12)]} for g in range(12)]}
+    for t in ("sort_by(groups, &sort_by(items, &n)[0].s)[*].id", "sort_by(groups, &sort_by(items, &s)[0].n)[*].id", "max_by(groups, &min_by(items, &s).n).id",
+              "min_by(groups, &max_by(items, &n).s).id", "sort_by(groups, &sort_by(items, &n)[0].n)[*].id", "sort_by(groups, &sort(items[*].s)[0])[*].id",
+              "groups[*].sort_by(items, &s)[0].n", "sort_by(groups, &max(items[*].n))[*].id"):
+        cases.append((t, gdoc))
     jdoc = {"j": json.dumps(list(range(2000))), "o": ' {"a":1}', "n": "12", "w": " 4", "b": "[1", "z": "-0", "arr": ["[1]", "2", "{}", "x"]}
     for t in ("to_number(j)", "to_number(o)", "to_number(n)", "to_number(w)", "[to_number(j), to_number(n)]", "to_number(b)", "to_number(z)", "map(&to_number(@), arr)",
               "to_number(to_string(`[1, 2]`))"):
@@ -81,9 +88,9 @@ def mix_pool(path, part="all"):
               "a[?@ == `2`]", "merge(b, `{\"c\": {\"x\": [1]}}`)", "keys(@)", "values(b)"):
         cases.append((t, vdoc))
     if part == "sorting":          # only the long-array cases: two threads are inside the same function with different kinds of keys most of the time
-        cases = [c for c in cases if c[1] is recs or c[1] is edoc]
+        cases = [c for c in cases if c[1] is recs or c[1] is edoc or c[1] is gdoc]
     elif part == "modes":          # only the short ones: to_number on document text against literal compiles and re-read documents
-        cases = [c for c in cases if c[1] is not recs and c[1] is not edoc]
+        cases = [c for c in cases if c[1] is not recs and c[1] is not edoc and c[1] is not gdoc]
     with open(path, "w") as f:
         for t, d in cases:
             f.write(json.dumps({"text": cps(t), "doc": to_tagged(d)}) + "\n")
@@ -175,8 +182,13 @@ def run(prop, tier, seed, work, ev):
     events = work.path("sync.obs")
     open(events, "w").close()
     for k in range(t["trials"]):
-        p = subprocess.run([drv, "sync-trial", str(seed * 100000 + k), str(t["threads"]), str(t["iters"]), events, pool],
-                           stdout=subprocess.PIPE, stderr=subprocess.PIPE, timeout=300)
+        try:
+            p = subprocess.run([drv, "sync-trial", str(seed * 100000 + k), str(t["threads"]), str(t["iters"]), events, pool],
+                               stdout=subprocess.PIPE, stderr=subprocess.PIPE, timeout=300)
+        except subprocess.TimeoutExpired:
+            with open(events, "a") as f:     # threads that never come back: that is data
+                f.write(json.dumps({"e": "sync", "thr": -1, "seq": 0, "text": common.cps("@"), "doc": {"t": "null"}, "out": {"timeout": True, "trial": k}}) + "\n")
+            continue
         if p.returncode != 0:
             if b"DRIVER-ERROR" in p.stderr:
                 raise ToolError("sync trial failed: " + p.stderr.decode()[-500:])
@@ -190,11 +202,22 @@ def run(prop, tier, seed, work, ev):
     ev.extra["thread_events_total"] = ev.extra.get("thread_events_total", 0) + total
     rejects += rej
 
-    def trials(mode, n, threads, iters, poolfile, evfile):
+    def trials(mode, n, threads, iters, poolfile, evfile, tmo=600):
         open(evfile, "w").close()
+        hung = 0
         for k in range(n):
-            p = subprocess.run([drv, mode, str(seed * 100000 + 7000 + k), str(threads), str(iters), evfile, poolfile],
-                               stdout=subprocess.PIPE, stderr=subprocess.PIPE, timeout=600)
+            try:
+                p = subprocess.run([drv, mode, str(seed * 100000 + 7000 + k), str(threads), str(iters), evfile, poolfile],
+                                   stdout=subprocess.PIPE, stderr=subprocess.PIPE, timeout=tmo)
+            except subprocess.TimeoutExpired:
+                # threads that never come back (a deadlock, a livelock) are an outcome, not a tool failure
+                with open(evfile, "a") as f:
+                    f.write(json.dumps({"e": "sync", "thr": -1, "seq": 0, "text": common.cps("@"), "doc": {"t": "null"},
+                                        "out": {"timeout": True, "trial": k, "mode": mode}}) + "\n")
+                hung += 1
+                if hung >= 2:
+                    break
+                continue
             if p.returncode != 0:
                 if b"DRIVER-ERROR" in p.stderr:
                     raise ToolError("%s failed: %s" % (mode, p.stderr.decode()[-500:]))
@@ -285,7 +308,7 @@ def run(prop, tier, seed, work, ev):
         mix_pool(mp, part)
         n, th, iters = t["mix"]
         mevents = work.path("mix.%s.obs" % part)
-        trials("sync-trial", n, th, iters * scale, mp, mevents)
+        trials("sync-trial", n, th, iters * scale, mp, mevents, tmo=300)
         seqev = work.path("mixseq.%s.obs" % part)
         trials("sync-trial", 1, 1, 6 * common.count_lines(mp), mp, seqev)
         with open(mevents, "a") as f:
